@@ -61,6 +61,7 @@ def check(ctx: Ctx, rep: Report):
     rep.rule("C19.R3", "eco group identity: eco_mode_1 on both sides, groups 2-4 switched off", 4)
     rep.rule("C19.R4", "eco templates satisfy the recogniser predicates field by field; 745 power scaling is an inverse pair", 12)
     rep.rule("C19.R5", "export limit and DoD: setter writes what the getter reads (same id, same involution)", 5)
+    rep.rule("C19.R7", "getters read the inverter: read_setting issues a request on every path that returns a value (no remembered answers)", 3)
     rep.rule("C19.R6", "whatever the group held before: on every path (also when reading the old group fails) the schedule type is forced to an eco type before the group is encoded", 2)
     r1_et(ctx, rep)
     r1_es(ctx, rep)
@@ -69,6 +70,36 @@ def check(ctx: Ctx, rep: Report):
     r4(ctx, rep)
     r5(ctx, rep)
     r6(ctx, rep)
+    r7(ctx, rep)
+
+
+def r7(ctx: Ctx, rep: Report):
+    """A getter that follows a setter must see what the inverter holds now: read_setting (the base of every getter)
+    asks the inverter on every path that returns a value - nothing is answered from a remembered response."""
+    from .c18 import _request_events
+    prog = ctx.prog
+    for famname in ("ET", "DT", "ES"):
+        fn = prog.cls(famname).methods.get("read_setting")
+        if fn is None:
+            raise AnalysisError("%s.read_setting not found" % famname)
+        n = 0
+        bad = None
+        for p in enumerate_paths(prog, fn, no_raise):
+            if p.end != "return":
+                continue
+            n += 1
+            if _request_events(ctx, fn, p):
+                continue
+            # no request on this path: acceptable only when the value does not come from the object's state
+            # (ES answers the fake 'time' setting with datetime.now())
+            val = Replay(prog, fn, p).sym.lin(p.end_node.value) if p.end_node.value is not None else None
+            if val is not None and "self" in repr(val) and bad is None:
+                bad = p
+        if n == 0:
+            raise AnalysisError("%s.read_setting has no returning path" % famname)
+        rep.check(bad is None, "C19.R7", "fresh-read:%s" % famname, fn.loc(), "%s.read_setting sends a request on each of its %d returning paths" % (famname, n),
+                  bad="%s.read_setting can return a value without asking the inverter [path %s]: a getter called after a setter reports the value from before the change" % (
+                      famname, bad.describe(8) if bad else ""))
 
 
 def r6(ctx: Ctx, rep: Report):
